@@ -140,6 +140,9 @@ func Scalars() map[string]interface{} {
 		"nil": nil, "pi": ip(9), "ps": sp("ptr"), "ppi": pip(11), "np": (*int)(nil), "pjn": func() *json.Number { j := json.Number("7"); return &j }(),
 		"ch": make(chan int), "fn": func() {}, "cx": complex(1, 2), "up": uintptr(5), "by": []byte("abc"), "nby": NBytes("xyz"),
 		"st": struct{ A int }{1}, "ni": NInt(42), "nf": NF64(2.5), "nu8": NUint8(200),
+		// keys that begin with (or contain) a word of the language
+		"notes": "n1", "nothing": 0, "android": "a", "order": 2, "inside": "i", "island": "x", "anyone": 1, "allow": true, "asset": "as",
+		"emptyish": "", "matchesx": "m", "containsx": "c", "not_": "u", "isnot": 3, "and1": "d", "In": "cap",
 	}
 }
 
@@ -401,6 +404,9 @@ func Conts() []Doc {
 		{"ifmap", map[interface{}]interface{}{"a": i1, 2: i2, true: map[string]interface{}{"X": 1}}},
 		{"ifmap2", map[interface{}]interface{}{1: i1, "1": i3, [2]string{"a b", "c"}: i1, [2]string{"a", "b c"}: i3}},
 		{"items-all", []Item{i1, i3}},
+		// lists of different lengths inside the elements: an index that some elements have and others do not
+		{"items-tags", []Item{i1, {X: 3, Y: "d", Tags: []string{"t", "b"}}, {X: 1, Y: "e", Tags: []string{"b", "t", "x"}}}},
+		{"smap-tags", map[string]Item{"long": {X: 3, Y: "d", Tags: []string{"t", "b"}}, "longer": {X: 1, Y: "e", Tags: []string{"b", "t", "x"}}}},
 		{"map-err", map[string]interface{}{"a": i1, "b": 5}},
 		{"emap", map[string]Item{}},
 		{"nilmap", map[string]Item(nil)},
